@@ -8,10 +8,12 @@
 
 package containers
 
-//@ -- GetSortedValues: sorts the snapshot, never the container (empty frame); the result is the snapshot itself
+//@ -- GetSortedValues: sorts the snapshot, never the container (empty frame); the result is the snapshot itself, ascending
+//@ -- under the ordered type's own order (assumed contract of slices.Sort)
 //@ func GetSortedValues
 //@   modifies nothing
 //@   ensures [C16 C17 C18] len(result) == 0 || fresh(arr(result))
+//@   ensures [C16] sorted: len(result) >= 2 ==> (forall a, b :: 0 <= a && a < b && b < len(result) ==> result[a] <= result[b])
 
 //@ -- GetSortedValuesFunc: as above, and ascending under the comparator (assumed contract of slices.SortFunc)
 //@ func GetSortedValuesFunc
